@@ -126,7 +126,7 @@ pub fn cmd_worker(pos: &[String], flags: &BTreeMap<String, String>) -> i32 {
             break;
         }
         let rs = props::run_seed(seed, &prop, &tier, i);
-        let case = props::gen_case(&prop, rs, &tier);
+        let case = props::gen_case(&prop, rs, &tier, i);
         let out = run_any(&case);
         rep.runs += 1;
         rep.counters.add(&out.counters);
@@ -150,7 +150,7 @@ pub fn cmd_worker(pos: &[String], flags: &BTreeMap<String, String>) -> i32 {
             if rep.harness_errors.len() < 3 {
                 rep.harness_errors.push(format!("run {i} seed {rs}: {e}"));
             }
-        } else if let Some(f) = out.violation {
+        } else if let Some(f) = out.violation.or(out.foreign) {
             let found = Found { run: i, seed: rs, case: case.clone(), failure: f.clone() };
             if f.props.iter().any(|p| *p == prop) {
                 if rep.found.len() < 4 {
@@ -207,7 +207,7 @@ pub fn matches_known<'a>(known: &'a [KnownFinding], prop: &str, f: &Failure) -> 
 
 pub fn cmd_run(pos: &[String], flags: &BTreeMap<String, String>) -> i32 {
     let Some(prop) = pos.first().cloned() else { return 2 };
-    let Some(sp) = spec(&prop) else {
+    let Some(sp) = crate::props::spec_for_build(&prop) else {
         eprintln!("unknown property {prop}");
         return 2;
     };
@@ -376,7 +376,37 @@ fn write_evidence(prop: &str, sp: &Spec, tier: &str, seed: u64, t: &WorkerReport
     });
     let dir = verif_dir().join("evidence");
     let _ = std::fs::create_dir_all(&dir);
-    std::fs::write(dir.join(format!("{prop}.json")), serde_json::to_string_pretty(&ev).unwrap()).expect("write evidence");
+    let path = dir.join(format!("{prop}.json"));
+    let mut ev = ev;
+    if std::env::var("CASIM_APPEND_EVIDENCE").is_ok() {
+        // second part of a two-build check (seq part ran first): merge into one evidence file
+        if let Some(old) = std::fs::read_to_string(&path).ok().and_then(|s| serde_json::from_str::<serde_json::Value>(&s).ok()) {
+            let oc = &old["coverage"];
+            let nc = ev["coverage"].clone();
+            let sum = |k: &str| oc[k].as_u64().unwrap_or(0) + nc[k].as_u64().unwrap_or(0);
+            let mut samples = oc["samples"].as_array().cloned().unwrap_or_default();
+            samples.extend(nc["samples"].as_array().cloned().unwrap_or_default());
+            let merged = serde_json::json!({
+                "evaluations": sum("evaluations"),
+                "distinct_nontrivial": sum("distinct_nontrivial"),
+                "rule": format!("sequential part: {} || concurrent part: {}", oc["rule"].as_str().unwrap_or(""), nc["rule"].as_str().unwrap_or("")),
+                "samples": samples,
+                "exhaustive": false,
+                "parts": { "seq": oc, "conc": nc },
+            });
+            let mut assumptions: Vec<serde_json::Value> = old["assumptions"].as_array().cloned().unwrap_or_default();
+            for a in ev["assumptions"].as_array().cloned().unwrap_or_default() {
+                if !assumptions.contains(&a) {
+                    assumptions.push(a);
+                }
+            }
+            ev["coverage"] = merged;
+            ev["assumptions"] = serde_json::Value::Array(assumptions);
+            ev["wall_s"] = serde_json::json!(old["wall_s"].as_f64().unwrap_or(0.0) + wall);
+            ev["violations"] = serde_json::json!(old["violations"].as_u64().unwrap_or(0) + violations);
+        }
+    }
+    std::fs::write(path, serde_json::to_string_pretty(&ev).unwrap()).expect("write evidence");
 }
 
 fn assumptions(build: &str) -> Vec<String> {
@@ -443,7 +473,7 @@ pub fn cmd_show(pos: &[String], flags: &BTreeMap<String, String>) -> i32 {
     let seed = seed_from(flags);
     let run = flag_u64(flags, "run").unwrap_or(0);
     let rs = props::run_seed(seed, prop, &tier, run);
-    let case = props::gen_case(prop, rs, &tier);
+    let case = props::gen_case(prop, rs, &tier, run);
     println!("{}", serde_json::to_string_pretty(&sample_of(&case)).unwrap());
     let out = run_any(&case);
     println!("violation={:?}\nharness_error={:?}\ncounters={:?}\ndigest={}", out.violation, out.harness_error, out.counters, out.log_digest);
